@@ -21,8 +21,7 @@ ASSUMPTIONS = [
     "re.Pattern.search: exact (substring test) for the case-less literal pattern #1# used in the operator contracts; an uninterpreted predicate of (pattern, flags, subject) for every other pattern (FAsset's list); re.compile on concrete arguments is the real compile",
     "parts computed by separately specified code are contracts in both modes: Message.get_content(strict=False), Request.pretty_host, Request.pretty_url, DNSMessage.__str__ return an arbitrary (symbolic) value of the right type; Request.host, Message.headers, Response.status_code, Headers.__bytes__ are executed from source",
     "str(DNSMessage) is UTF-8 encodable (no lone surrogates)",
-    "flow models: one header field per message, two websocket / TCP / UDP messages, DNS requests with 0 or 1 question; metadata with one entry",
-    "bytes.lower() is an uninterpreted length-preserving idempotent function (header-name comparison)",
+    "flow models: one header field per message (name one of content-type / Content-Type / X-#1#, value symbolic), two websocket / TCP / UDP messages, DNS requests with 0 or 1 question; metadata with one entry",
     "T2: pyparsing grammar covered only for the generated trees (depth <= 3) and renderings described in the evidence; renderer rules: arguments the documentation requires to be quoted are quoted, backslash and the delimiter are escaped inside quotes (pyparsing QuotedString esc_char), an unquoted argument is separated from a following operator by a blank, nested juxtaposition is parenthesised",
 ]
 FF = "mitmproxy.flowfilter:"
@@ -332,7 +331,7 @@ def has(part):
 
 def hdrs(vc, fields):
     if vc.mode == "sym":
-        return vc.new("mitmproxy.http:Headers", fields=STuple([STuple([k, v]) for k, v in fields]))
+        return vc.new("mitmproxy.http:Headers", fields=STuple([STuple([lift(k), lift(v)]) for k, v in fields]))
     from mitmproxy import http
     return http.Headers(tuple((k, v) for k, v in fields))
 
@@ -340,7 +339,7 @@ def hdrs(vc, fields):
 class FlowModel:
     """A flow of the given shape; every part a filter may look at is a symbolic value (or a concrete case)."""
 
-    def __init__(self, vc, shape, tag="f", nhdr=1, error=None, is_replay=None):
+    def __init__(self, vc, shape, tag="f", hnames=(b"content-type",), error=None, is_replay=None):
         self.vc, self.shape = vc, shape
         s = lambda n: vc.sym_str(f"{tag}_{n}")
         y = lambda n: vc.sym_bytes(f"{tag}_{n}")
@@ -361,14 +360,14 @@ class FlowModel:
         self.ws = shape == "http_ws"
         if self.is_http:
             self.method, self.host, self.pretty_host, self.pretty_url = y("method"), s("host"), s("pretty_host"), s("pretty_url")
-            self.req_hdr = [(y(f"qh{i}_name"), y(f"qh{i}_value")) for i in range(nhdr)]
+            self.req_hdr = [(vc.case(f"{tag}_req_header_name", list(hnames)), y("qh_value"))]
             self.req_body = vc.opt(f"{tag}_req_body", y("req_body_v")) if vc.mode == "sym" else vc.opt(f"{tag}_req_body", y("req_body_v"))
             rd = vc.new("mitmproxy.http:RequestData", method=self.method, host=self.host, headers=hdrs(vc, self.req_hdr))
             self.request = vc.new("mitmproxy.http:Request", data=rd, _m_content=self.req_body, _m_pretty_host=self.pretty_host, _m_pretty_url=self.pretty_url)
             self.response = None
             if self.has_response:
                 self.status = vc.sym_int(f"{tag}_status", lo=100, hi=999)
-                self.resp_hdr = [(y(f"sh{i}_name"), y(f"sh{i}_value")) for i in range(nhdr)]
+                self.resp_hdr = [(vc.case(f"{tag}_resp_header_name", list(hnames)), y("sh_value"))]
                 self.resp_body = vc.opt(f"{tag}_resp_body", y("resp_body_v"))
                 sd = vc.new("mitmproxy.http:ResponseData", status_code=self.status, headers=hdrs(vc, self.resp_hdr))
                 self.response = vc.new("mitmproxy.http:Response", data=sd, _m_content=self.resp_body)
@@ -468,7 +467,8 @@ def header_block(fields):
 
 
 def ctype_match(vc, fields, pred):
-    return Or(*[And(_lower_term(vc, k) == b"content-type", pred(v)) for k, v in fields]) if fields else False
+    # header names are case-insensitive
+    return Or(*[pred(v) for k, v in fields if k.lower() == b"content-type"]) if fields else False
 
 
 def spec(vc, code, M, flt=None):
@@ -593,8 +593,11 @@ def _op_scenario(code, **kw):
     return s
 
 
-for _c in ["http", "websocket", "tcp", "udp", "dns", "q", "s", "all", "m", "d", "u", "src", "dst", "meta", "marker", "comment", "c", "h", "hq", "hs", "t", "tq", "ts", "a", "b", "bq", "bs", "marked"]:
+for _c in ["http", "websocket", "tcp", "udp", "dns", "q", "s", "all", "m", "d", "u", "src", "dst", "meta", "marker", "comment", "c", "b", "bq", "bs", "marked"]:
     _op_scenario(_c)
+for _c in ["h", "hq", "hs", "t", "tq", "ts", "a"]:
+    # header operators: the field name varies in case and may itself contain the searched text
+    _op_scenario(_c, hnames=(b"content-type", b"Content-Type", b"X-#1#"))
 
 
 @scenario("operator.~e", functions=[FF + "FErr.__call__"])
@@ -719,8 +722,8 @@ def bounded(tier, seed):
                     inp = {"expression": text, "tree": repr(t)[:300]}
                     try:
                         flt = flowfilter.parse(text)
-                    except ValueError as e:
-                        b.fail(chk("parse.accepts"), inp, str(e))
+                    except Exception as e:
+                        b.fail(chk("parse.accepts"), inp, f"{type(e).__name__}: {e}")
                         continue
                     try:
                         got = [bool(flt(f)) for f in flows]
